@@ -1,5 +1,6 @@
 import SnaxVerif.Drv.Basic
 import SnaxVerif.Model.Scheduler
+import SnaxVerif.Model.AffineTransform
 /-! Driver entry points for C03 / C16 (scheduler model). Not part of any proof. -/
 namespace SnaxVerif.Drv.C03
 open Lean SnaxVerif SnaxVerif.Drv SnaxVerif.Sched
@@ -96,10 +97,34 @@ def constructH : Handler := fun j => do
   if ops.any (fun o => o.rows.length != o.b.length) then throw "operand: A and b disagree on the number of rows"
   return jExcept (fun s => Json.mkObj [("accepted", schedToJson s)]) (construct bounds ops)
 
-/-- args: {"t", "s", "sizes", "fuel"} -> schedule | {"raised": ..} (empty generator = StopIteration) -/
+/-- args: {"n": dims, "results": [aexpr]} -> {"A","b"} | {"raised": "ValueError"} -/
+def fromMapE (n : Nat) (results : List AExpr) : Except Err Operand :=
+  match AT.fromMap n results with
+  | .error .valueError => .error .valueError
+  | .error .indexError => .error .indexError
+  | .ok t => .ok { rows := t.A, b := t.b }
+
+def fromMapH : Handler := fun j => do
+  let n ← nat (← field j "n")
+  let results ← listOf aexprOfJson (← field j "results")
+  return jExcept operandToJson (fromMapE n results)
+
+/-- args: {"t", "s", "sizes", "fuel"[, "expr0": [aexpr]]} -> schedule | {"raised": ..} (empty generator =
+StopIteration).  With "expr0" the first operand's (A, b) is built by `fromAffineMap` from these result
+expressions (the placeholder in "s" is replaced); a rejected map is the pass's ValueError. -/
 def autoflowH : Handler := fun j => do
   let t ← tmplOfJson (← field j "t")
-  let s ← schedOfJson (← field j "s")
+  let s0 ← schedOfJson (← field j "s")
+  let s ← match (j.getObjVal? "expr0").toOption with
+    | none => pure (Except.ok s0 : Except Err Schedule)
+    | some ej => do
+      let results ← listOf aexprOfJson ej
+      match fromMapE s0.n results with
+      | .error e => pure (Except.error e)
+      | .ok o => pure (Except.ok { s0 with ops := o :: s0.ops.drop 1 })
+  let s ← match s with
+    | .error e => return Json.mkObj [("raised", Json.str (errName e))]
+    | .ok s => pure s
   let sizes ← listOf nat (← field j "sizes")
   if sizes.any (· == 0) then throw "element size 0"
   match autoflow sizes t (← nat (← field j "fuel")) s with
@@ -109,7 +134,7 @@ def autoflowH : Handler := fun j => do
 
 def handlers : List (String × Handler) :=
   [("c03.rotate", rotateH), ("c03.tile", tileH), ("c03.add_dim", addDimH), ("c03.clear", clearH),
-   ("c03.canon", canonH), ("c03.construct", constructH), ("c03.autoflow", autoflowH), ("c03.inner", innerH), ("c03.image", imageH), ("c03.backtrack", backtrackH),
+   ("c03.canon", canonH), ("c03.construct", constructH), ("c03.from_affine_map", fromMapH), ("c03.autoflow", autoflowH), ("c03.inner", innerH), ("c03.image", imageH), ("c03.backtrack", backtrackH),
    ("c16.matches", matchesH), ("c16.same_space", sameSpaceH), ("c16.check", checkH), ("c16.ocs", ocsH)]
 
 end SnaxVerif.Drv.C03
